@@ -311,6 +311,17 @@ func SetupNewUser(user *ptttype.UserecRaw) error {
 	}
 	defer func() { _ = cmbbs.PasswdUnlock() }()
 
+	// check again under the lock: another registration of the same id
+	// may have completed since the check above.
+	uid, err = cache.DoSearchUserRaw(&user.UserID, nil)
+	if err != nil {
+		log.Errorf("SetupNewUser: unable to DoSearchUserRaw userID 2: userID: %v e: %v", user.UserID, err)
+		return err
+	}
+	if uid != 0 {
+		return ptttype.ErrUserIDAlreadyExists
+	}
+
 	uid, err = cache.DoSearchUserRaw(&ptttype.EMPTY_USER_ID, nil)
 	if err != nil {
 		log.Errorf("SetupNewUser: unable to DoSearchUserRaw empty-user-id 2: e: %v", err)
